@@ -65,10 +65,18 @@ Definition mobs (st : mstate) (o : option mresult) : list (list Z) :=
    (allowed, threat level, number of matched signatures). *)
 Inductive cop :=
   | COp (op : mop)
-  | CBurst (pre post : list Z) (start : Z) (count : nat).
+  | CBurst (pre post : list Z) (start : Z) (count : nat)
+  | CSetRate (r : option Z)            (* m.rate_limit = r on the live membrane *)
+  | CSetAdaptive (b : bool).           (* m.enable_adaptive = b on the live membrane *)
 
-Definition expand (o : cop) : list mop :=
-  match o with COp op => [op] | CBurst pre post start count => burst_ops pre post start count end.
+(* a case history as a live history (Model.v: lrun) *)
+Definition expand (o : cop) : list lop :=
+  match o with
+  | COp op => [LOp op]
+  | CBurst pre post start count => map LOp (burst_ops pre post start count)
+  | CSetRate r => [LSetRate r]
+  | CSetAdaptive b => [LSetAdaptive b]
+  end.
 
 Definition rkey (r : mresult) : list Z :=
   [ b2z (r_allowed r); r_level r; Z.of_nat (length (r_matched r)) ].
@@ -94,6 +102,10 @@ Fixpoint mrun_obs (cfg : mconfig) (st : mstate) (ops : list cop) : list (list Z)
   | CBurst pre post start count :: rest =>
       let '(st', rs) := mrun cfg st (burst_ops pre post start count) in
       burst_obs st' rs ++ mrun_obs cfg st' rest
+  | CSetRate r :: rest =>
+      let '(cfg', st', o) := lstep cfg st (LSetRate r) in mobs st' o ++ mrun_obs cfg' st' rest
+  | CSetAdaptive b :: rest =>
+      let '(cfg', st', o) := lstep cfg st (LSetAdaptive b) in mobs st' o ++ mrun_obs cfg' st' rest
   end.
 
 (* builtin indices kept, custom signatures, threshold, rate_limit,
